@@ -916,6 +916,16 @@ def altGlob : List Glob → Glob
   | [g] => g
   | g :: gs => .alt g (altGlob gs)
 
+/-- An ordinary (or escaped) character.  In filename mode without dotglob a dot at the start of a
+    path component of the subject must be matched by a dot that is the first character of a path
+    component of the *pattern* (POSIX 2.13.3; bash and fnmatch make `*` fail in front of a leading
+    dot even when it would match nothing, so `*.d` does not match `.d`).  A literal dot elsewhere
+    in the pattern therefore behaves like the bracket expression `[.]`: it matches a dot, but not
+    a leading one. -/
+def litTok (m : Mode) (prev c : Rune) : Glob :=
+  if m.filenames && !m.dotglob && c == cDot && !(prev == 0 || prev == cSlash)
+  then .bracket false [.ch cDot] else .lit c
+
 /-- `g` followed by the parse of the rest. -/
 def andThenG (g : Glob) (r : Except Err Glob) : Except Err Glob :=
   match r with
@@ -932,7 +942,7 @@ def parseSeq (m : Mode) : Nat → Rune → Str → Except Err Glob
     if c = cBS then
       match rest with
       | [] => .error .trailingBackslash
-      | d :: rest' => andThenG (.lit d) (parseSeq m fuel d rest')
+      | d :: rest' => andThenG (litTok m prev d) (parseSeq m fuel d rest')
     else if c = cQuest ∧ !(m.ext && rest.head? == some cLP) then andThenG .any (parseSeq m fuel c rest)
     else if c = cStar ∧ !(m.ext && rest.head? == some cLP) then
       -- `**` alone between slashes (or the ends) is globstar, when enabled
@@ -955,7 +965,7 @@ def parseSeq (m : Mode) : Nat → Rune → Str → Except Err Glob
         match alts.mapM (parseSeq m fuel cLP) with
         | .error e => .error e
         | .ok gs => andThenG (.ext c (altGlob gs)) (parseSeq m fuel cRP rest')
-    else andThenG (.lit c) (parseSeq m fuel c rest)
+    else andThenG (litTok m prev c) (parseSeq m fuel c rest)
 
 def parseGlob (m : Mode) (p : Str) : Except Err Glob := parseSeq m (p.length + 1) 0 p
 
@@ -1059,7 +1069,8 @@ def malformed (m : Mode) (p : Str) : Option Err :=
     * in filename mode: a slash inside a bracket expression, a bracket expression whose set
       contains the slash (negated, range, class), `**(`; without dotglob, `?`, a bracket
       expression or a pattern-list where the pattern alone does not exclude the start of a path
-      component, and `*` after another wildcard that may have matched nothing;
+      component, `*` after another wildcard that may have matched nothing, and a literal dot
+      after such a `*` (`*.d` matches `.d` in pattern.go);
     * with NoGlobCase, a bracket expression with a POSIX class (Go folds the class as well);
     * unterminated pattern-lists, bare parentheses inside a pattern-list, `!(…)`, and in
       filename mode a slash inside a pattern-list.
@@ -1113,7 +1124,9 @@ def supp (m : Mode) (inGroup : Bool) : Nat → Pos → Rune → Str → Bool
     if c = cBS then
       match rest with
       | [] => true
-      | d :: rest' => supp m inGroup fuel (posAfter d) d rest'
+      | d :: rest' =>
+        -- after a `*` that may have matched nothing, pattern.go lets a literal dot match a leading dot
+        !(dotSens && pos == .unknown && d == cDot) && supp m inGroup fuel (posAfter d) d rest'
     else if m.ext && isExtOp c && rest.head? == some cLP then
       if c = cBang then false
       else
@@ -1153,7 +1166,7 @@ def supp (m : Mode) (inGroup : Bool) : Nat → Pos → Rune → Str → Bool
        | .notBracket => supp m inGroup fuel .mid cLB rest
        | .malformed _ => true)
     else if inGroup && c == cLP then false
-    else supp m inGroup fuel (posAfter c) c rest
+    else !(dotSens && pos == .unknown && c == cDot) && supp m inGroup fuel (posAfter c) c rest
 
 /-- The patterns covered by `regexp_language`. -/
 def supported (m : Mode) (p : Str) : Bool := supp m false (p.length + 1) .start 0 p
